@@ -15,13 +15,16 @@ EXPLANATION = (
     "chains all three; (T2) the type renderer and the item emitters format the same `name` field, so a patched name is the only "
     "name that appears; (D1) both places that render a map type read settings.map_type and share the one exception "
     "(String -> JsonValue); (W3) in convert_schema the conversion-cache lookup dominates the structural dispatcher and ignores "
-    "annotations on both sides; (T3) enabling the builder only adds items: no template has an else-branch on the setting."
+    "annotations on both sides; (T3) enabling the builder only adds items: no template has an else-branch on the setting; "
+    "(W4) every settings setter (`with_*`) and the conversion cache's insert store what they are given on every path; the only "
+    "condition allowed is an exact-duplicate test (`!list.contains(&item)` on the list itself), never a test on part of the value."
 )
 ASSUMPTIONS = ["conversions of synthesised sub-schemas (merged schemas) are not decided"]
 
 
 def run(facts, rep, tier):
     c = facts.impl
+    run_w4(facts, rep)
 
     # ------------------------------------------------------------ W1 replacement
     reps = []
@@ -218,3 +221,52 @@ def run(facts, rep, tier):
         s = Canon(c, new[0], 5).r(new[0]["body"])
         ok = bool(re.search(r"\$&TypeSpaceSettings\.convert\.iter\(\)\.for_each\(\|\.\.\| \S+\.insert\(elem<\S+>~TypeSpaceConversion\.schema, elem<\S+>~TypeSpaceConversion\.type_name, elem<\S+>~TypeSpaceConversion\.impls\)\)", s))
         rep.ob("C14.W3", "conversions-loaded", ok, "TypeSpace::new loads every configured conversion into the cache" if ok else "TypeSpace::new does not insert every configured conversion (schema, type_name, impls) into the cache")
+
+
+def run_w4(facts, rep):
+    from lib import must_pass_strict as must_pass
+    c = facts.impl
+    fns = [h for h in c.user_fns() if re.search(r"(TypeSpaceSettings|TypeSpacePatch)::with_\w+$", h["fn"]) or h["fn"].endswith("SchemaCache::insert")]
+    rep.floor("C14.W4", "settings setters and the conversion cache's insert", len(fns), 10)
+    for h in fns:
+        def is_store(x):
+            if x.get("k") == "assign":
+                l = strip_refs(x["l"])
+                return l.get("k") == "field" and src(strip_refs(l["e"])) == "self"
+            if x.get("k") == "mcall" and x["name"] in ("push", "insert", "extend", "push_back", "append"):
+                r = strip_refs(x["recv"])
+                return r.get("k") == "field" and src(strip_refs(r["e"])) == "self"
+            return False
+        stores = [x for x, _ in walk(h["body"]) if is_store(x)]
+        if not stores:
+            rep.ob("C14.W4", "setter-stores:%s" % h["fn"], False, "the setter does not store anything into its receiver", h.get("sp") or c.fns[h["fn"]].get("sp"))
+            continue
+        ok = must_pass(h["body"], is_store)
+        why = "the value is stored on every path"
+        if not ok:
+            # the one allowed condition: `if !self.f.contains(&arg) { self.f.push(arg) }`
+            ok2 = False
+            for n, _ in nodes(h["body"], "if"):
+                cnd = n["cond"]
+                if cnd.get("k") == "un" and cnd.get("op") == "Not" and cnd["e"].get("k") == "mcall" and cnd["e"]["name"] == "contains" and n.get("else") is None:
+                    recv = strip_refs(cnd["e"]["recv"])
+                    tgt = [strip_refs(x["recv"]) for x in stores if x.get("k") == "mcall" and contains_node(n["then"], x)]
+                    exact = not re.search(r"\bstr::contains|String", cnd["e"].get("fn", "")) and ("slice" in cnd["e"].get("fn", "") or "Vec" in cnd["e"].get("fn", "") or "BTreeSet" in cnd["e"].get("fn", "") or "[T]" in cnd["e"].get("fn", ""))
+                    arg = strip_refs(cnd["e"]["args"][0]) if cnd["e"].get("args") else {}
+                    if tgt and src(recv) == src(tgt[0]) and exact and arg.get("k") == "path" and arg.get("res") == "local":
+                        ok2 = True
+            # the same guard as an early return: `if self.f.contains(&arg) { return self; } self.f.push(arg)`
+            for n, _ in nodes(h["body"], "if"):
+                cnd = n["cond"]
+                if cnd.get("k") == "mcall" and cnd["name"] == "contains" and n.get("else") is None and outcome(n["then"]) in ("ret", "ret-none", "ret-err"):
+                    recv = strip_refs(cnd["recv"])
+                    tgt = [strip_refs(x["recv"]) for x in stores if x.get("k") == "mcall"]
+                    exact = not re.search(r"\bstr::contains|String", cnd.get("fn", "")) and ("slice" in cnd.get("fn", "") or "Vec" in cnd.get("fn", "") or "BTreeSet" in cnd.get("fn", "") or "[T]" in cnd.get("fn", ""))
+                    arg = strip_refs(cnd["args"][0]) if cnd.get("args") else {}
+                    rets = [x for x, xa in walk(h["body"]) if x.get("k") == "ret" and not any(a.get("k") == "closure" for a in xa)]
+                    if tgt and src(recv) == src(tgt[0]) and exact and arg.get("k") == "path" and arg.get("res") == "local" and all(contains_node(n["then"], r_) for r_ in rets):
+                        ok2 = True
+            ok = ok2
+            why = "stored unless the list already contains exactly this item"
+        rep.ob("C14.W4", "setter-stores:%s" % h["fn"], ok, why if ok else
+               "`%s` can return without storing its argument (the store is under a condition that is not an exact-duplicate test): a derive / conversion / replacement the caller configured is silently dropped, so it is not applied everywhere" % h["fn"].split("::")[-1], stores[0].get("sp"))
